@@ -73,6 +73,8 @@ int pem_read(FILE *fp, const char *name, uint8_t *data, size_t *datalen, size_t 
 	char begin_line[80];
 	char end_line[80];
 	int len;
+	int ret;
+	int end_of_content = 0;
 	BASE64_CTX ctx;
 
 	snprintf(begin_line, sizeof(begin_line), "-----BEGIN %s-----", name);
@@ -120,9 +122,17 @@ int pem_read(FILE *fp, const char *name, uint8_t *data, size_t *datalen, size_t 
 		{
 			// one line (up to sizeof(line) - 1 characters) plus up to 63 characters pending in the context
 			uint8_t buf[sizeof(line) + 64];
-			if (base64_decode_update(&ctx, (uint8_t *)line, (int)strlen(line), buf, &len) < 0) {
+			// padding ends the content, only the END line may follow it
+			if (end_of_content && line[0]) {
 				error_print();
 				return -1;
+			}
+			if ((ret = base64_decode_update(&ctx, (uint8_t *)line, (int)strlen(line), buf, &len)) < 0) {
+				error_print();
+				return -1;
+			}
+			if (ret == 0 && line[0]) {
+				end_of_content = 1;
 			}
 			if (len < 0 || (size_t)len > maxlen - *datalen) {
 				error_print();
